@@ -415,6 +415,9 @@ def items_for(prop, tier):
             items += scen_notarget(fl, 'pfs', n, m, ('foreach',), prios=('min', 'max'))
             items += scen_target(fl, 'pfs', n, mf, ('none',), prios=('min', 'max'))
             items += with_repeat(scen_target(fl, 'pfs', n, 2, ('none', 'filter'), prios=('min', 'max')))
+            if tier == 'quick':
+                # two frontier nodes that both have edges to expand need 4 edges: the simple 4-edge shapes
+                items += scen_notarget(fl, 'pfs', n, 4, ('foreach',), prios=('min', 'max'), shapes=[q for q in simple_sequences(3, 4, loops=True) if len(q) == 4])
     elif prop == 'C07':
         for fl in FLAVOURS:
             for alg in ('bfs', 'dfs', 'pfs'):
